@@ -38,11 +38,23 @@ import (
 var c17MinStake = sim.Bip(1000)
 
 func TestC17ValidatorSet(t *testing.T) {
-	rapid.Check(t, func(t *rapid.T) {
+	rapid.Check(t, func(t *rapid.T) { c17ValidatorSetCase(t, "TestC17ValidatorSet", false) })
+}
+
+// TestC16CandidateRemoval runs the many-candidate worlds of the validator-set check for C16's
+// clause "coins leaving a stake by candidate removal return exactly one unbond period later":
+// every stake (and pending update) of a removed candidate must be frozen with its whole value,
+// due at the removal height + unbond period (rule c17-removed-stake-lost below).
+func TestC16CandidateRemoval(t *testing.T) {
+	rapid.Check(t, func(t *rapid.T) { c17ValidatorSetCase(t, "TestC16CandidateRemoval", true) })
+}
+
+func c17ValidatorSetCase(t *rapid.T, test string, onlyMany bool) {
+	{
 		wo := sim.DefaultOpts()
 		wo.Votes = false
 		wo.MinStakePd, wo.MaxStakePd = 2, 6
-		big_ := sim.U(t, "manyCandidates", 3) == 0
+		big_ := onlyMany || sim.U(t, "manyCandidates", 3) == 0
 		if big_ {
 			// a genesis never holds more than 100 candidates (an export cannot contain more: the
 			// node removes the surplus at every recalculation); more are declared in the history
@@ -98,7 +110,28 @@ func TestC17ValidatorSet(t *testing.T) {
 			}
 		}
 		r.H.AfterEnd = func(hh uint64, resp abci.ResponseEndBlock) { updates = resp.ValidatorUpdates }
+		// value that left a stake by the owner's own unbond / move-stake transactions in the current block
+		leftByTx := map[string]*big.Int{}
+		r.H.AfterTx = func(m *sim.TxMeta, resp abci.ResponseDeliverTx) {
+			if resp.Code != 0 {
+				return
+			}
+			add := func(pk types.Pubkey, coin types.CoinID, v *big.Int) {
+				k := fmt.Sprintf("%s/%s/%d", pk.String(), m.Sender.String(), coin)
+				if leftByTx[k] == nil {
+					leftByTx[k] = new(big.Int)
+				}
+				leftByTx[k].Add(leftByTx[k], v)
+			}
+			switch d := m.Data.(type) {
+			case tx.UnbondDataV3:
+				add(d.PubKey, d.Coin, d.Value)
+			case tx.MoveStakeData:
+				add(d.FromPubKey, d.Coin, d.Value)
+			}
+		}
 		r.H.AfterCommit = func(hh uint64) {
+			defer func() { leftByTx = map[string]*big.Int{} }()
 			cur := n.Export()
 			prevVals := map[string]bool{}
 			for _, v := range prev.Validators {
@@ -257,15 +290,66 @@ func TestC17ValidatorSet(t *testing.T) {
 					violation(t, "c17-candidate-vanished", r, "block %d removed candidate id %d although only %d candidates existed", hh, c.ID, len(cur.Candidates)+len(gone))
 				}
 				// its stakes of the previous export are frozen now
-				for _, s := range c.Stakes {
-					found := false
-					for _, f := range cur.FrozenFunds {
-						if f.Address == s.Owner && f.Coin == s.Coin && f.CandidateID == c.ID && f.MoveToCandidateID == 0 && f.Height > hh {
-							found = true
+				// ... and it is not a better candidate than one that was kept: what it held in base coin
+				// before the block (less what its delegators took out themselves) is a lower bound of its
+				// total; no kept non-validator may have strictly less
+				lower := new(big.Int)
+				onlyBase := true
+				for _, s := range append(append([]types.Stake{}, c.Stakes...), c.Updates...) {
+					if s.Coin != 0 {
+						onlyBase = false
+						continue
+					}
+					v := sim.B(s.Value)
+					if left := leftByTx[fmt.Sprintf("%s/%s/%d", c.PubKey.String(), s.Owner.String(), s.Coin)]; left != nil {
+						v = new(big.Int).Sub(v, left)
+					}
+					if v.Sign() > 0 {
+						lower.Add(lower, v)
+					}
+				}
+				_ = onlyBase
+				for _, k := range cur.Candidates {
+					if prevVals[k.PubKey.String()] {
+						continue
+					}
+					isVal := false
+					for _, v := range cur.Validators {
+						if v.PubKey == k.PubKey {
+							isVal = true
 						}
 					}
-					if !found && sim.B(s.Value).Sign() > 0 {
-						violation(t, "c17-removed-stake-lost", r, "block %d removed candidate id %d; the stake of %s in coin %d (%s) has no frozen fund", hh, c.ID, s.Owner.String(), s.Coin, s.Value)
+					if isVal {
+						continue
+					}
+					if kt := sim.B(k.TotalBipStake); kt.Cmp(lower) < 0 {
+						violation(t, "c17-wrong-candidate-removed", r, "block %d removed candidate id %d holding at least %s base coin, but kept candidate id %d (not a validator) with a total stake of %s", hh, c.ID, lower, k.ID, kt)
+					}
+				}
+				// ... with their whole value (the stake of the previous export; rewards and delegations
+				// of this block can only add to it), due exactly one unbond period later
+				want := map[c17Key]*big.Int{}
+				for _, s := range c.Stakes {
+					c17Add(want, c17Key{s.Owner, s.Coin}, sim.B(s.Value))
+				}
+				for _, s := range c.Updates {
+					c17Add(want, c17Key{s.Owner, s.Coin}, sim.B(s.Value))
+				}
+				for k, v := range want {
+					if left := leftByTx[fmt.Sprintf("%s/%s/%d", c.PubKey.String(), k.owner.String(), k.coin)]; left != nil {
+						v = new(big.Int).Sub(v, left)
+					}
+					if v.Sign() <= 0 {
+						continue
+					}
+					got := new(big.Int)
+					for _, f := range cur.FrozenFunds {
+						if f.Address == k.owner && f.Coin == k.coin && f.CandidateID == c.ID && f.MoveToCandidateID == 0 && f.Height == hh+types.GetUnbondPeriod() {
+							got.Add(got, sim.B(f.Value))
+						}
+					}
+					if got.Cmp(v) < 0 {
+						violation(t, "c17-removed-stake-lost", r, "block %d removed candidate id %d; %s held %s of coin %d there (stake + pending), the frozen funds due at %d hold only %s", hh, c.ID, k.owner.String(), v, k.coin, hh+types.GetUnbondPeriod(), got)
 					}
 				}
 			}
@@ -285,6 +369,10 @@ func TestC17ValidatorSet(t *testing.T) {
 		sim.S.LabelN("C17/updates-with-more-than-100-candidates", over100)
 		sim.S.LabelN("C17/candidates-removed", removed)
 		sim.S.Label(fmt.Sprintf("C17/many-candidates=%v", big_))
-		sim.S.Case("TestC17ValidatorSet", judged >= 2 && r.AcceptedTx > 0, sim.HashStrings(r.Steps), func() interface{} { return sim.HistorySample(r.Steps, 25) })
-	})
+		nt := judged >= 2 && r.AcceptedTx > 0
+		if onlyMany {
+			nt = removed > 0
+		}
+		sim.S.Case(test, nt, sim.HashStrings(r.Steps), func() interface{} { return sim.HistorySample(r.Steps, 25) })
+	}
 }
